@@ -225,7 +225,23 @@ fn run_history(ctx: &mut Ctx, ops: &[Op], exit_how: (u8, u8), fl: &Flags, class:
     // ... and the handle is dropped by a panic unwinding through the caller's frame in part of them
     let drop_by_panic = ops.len() % 4 == 1;
     let mut stopped = false;
-    let (mut p, kid) = match spawn_ctl_cfg(ctx, &dir, own_group) {
+    // ... and the thread that starts the child has signals blocked in part of them (it handles them elsewhere, with
+    // sigwait or a signalfd): what is sent to the child later is delivered to the child all the same
+    let blocked_while_spawning = ops.len() % 5 == 2;
+    let mut old_mask: libc::sigset_t = unsafe { std::mem::zeroed() };
+    if blocked_while_spawning {
+        unsafe {
+            let mut set: libc::sigset_t = std::mem::zeroed();
+            libc::sigfillset(&mut set);
+            libc::pthread_sigmask(libc::SIG_BLOCK, &set, &mut old_mask);
+        }
+        ctx.count("children_started_from_a_thread_with_all_signals_blocked", 1);
+    }
+    let spawned = spawn_ctl_cfg(ctx, &dir, own_group);
+    if blocked_while_spawning {
+        unsafe { libc::pthread_sigmask(libc::SIG_SETMASK, &old_mask, std::ptr::null_mut()) };
+    }
+    let (mut p, kid) = match spawned {
         Some(x) => x,
         None => {
             ctx.inconclusive("could not start the controlled child", J::Null);
